@@ -25,9 +25,11 @@ def coq_parts(p):
     return "(%d, %s%%Z, (%d)%%Z)" % (p[0], p[1], p[2])
 
 
-def make_case(cid, measure, qrecs, trecs, rng, meta):
-    q = gen.layout(rng, qrecs, "plain")
-    t = gen.layout(rng, trecs, "plain")
+def make_case(cid, measure, qrecs, trecs, rng, meta, plain=True):
+    # random cases: random physical layout (wrapped lines, CRLF, blank lines) - the per-record A/C/G/T tallies that
+    # feed tn93 are accumulated line by line in the reader
+    q = gen.layout(rng, qrecs, "plain") if plain else gen.layout(rng, qrecs)
+    t = gen.layout(rng, trecs, "plain") if plain else gen.layout(rng, trecs)
     K = len(trecs) + 1
     go = {"id": cid, "op": "closest", "query": cm.b64(q), "target": cm.b64(t), "measure": measure, "n": K,
           "table": True, "threads": 1, "matrix": True}
@@ -66,7 +68,7 @@ def generate(ctx):
         if rng.random() < 0.1:
             trecs.append(("same", qrecs[0][1]))
         amb = any(c.upper() not in "ACGT" for _, s in qrecs + trecs for c in s)
-        cs.append(make_case(cid, measure, qrecs, trecs, rng, {"kind": "random:" + measure, "nontrivial": amb}))
+        cs.append(make_case(cid, measure, qrecs, trecs, rng, {"kind": "random:" + measure, "nontrivial": amb}, plain=rng.random() < 0.4))
         cid += 1
     return cs
 
